@@ -11,6 +11,7 @@ import GoRes.Driver.ReqLoad
 import GoRes.Driver.SendReq
 import GoRes.Driver.QE
 import GoRes.Driver.Legacy
+import GoRes.Driver.Crash
 /-! `gores-driver <domain>`: one op line in, one line `model<TAB>spec<TAB>tag` out. -/
 open GoRes GoRes.Wire
 
@@ -66,6 +67,7 @@ def stepLine (dom : String) (st : DState) (full : String) : DState × String :=
     | "legacy" =>
       let (ls, m, s, t) := GoRes.Driver.Legacy.run st.legacy args
       ({ st with legacy := ls }, m ++ "\t" ++ s ++ "\t" ++ t)
+    | "crash" => let (m, s, t) := GoRes.Driver.Crash.run args impl; (st, m ++ "\t" ++ s ++ "\t" ++ t)
     | "subs" => let (m, s, t) := GoRes.Driver.Subs.run args impl; (st, m ++ "\t" ++ s ++ "\t" ++ t)
     | _ => (st, "bad-domain\t-\tbad")
 
